@@ -27,6 +27,8 @@ def check(ck):
         _bake_locality(ck, repo)
     with ck.rule("R3"):
         _global_state_census(ck, repo)
+        from .c16 import no_other_cache
+        no_other_cache(ck, repo)
 
 
 def _registry_access(ck, repo):
